@@ -431,9 +431,9 @@ def main(argv):
                 print("replay:", "FAILS" if msgs else "passes", msgs[:1])
                 bad += bool(msgs)
                 continue
-            if f.get("case") is not None and prop == "C13":
-                import c13p
-                msgs = c13p.replay_case(f["case"])
+            if f.get("case") is not None and prop in ("C13", "C06"):
+                import c13p, c06xy
+                msgs = (c13p if prop == "C13" else c06xy).replay_case(f["case"])
                 print("replay:", "FAILS" if msgs else "passes", msgs[:1])
                 bad += bool(msgs)
                 continue
@@ -523,7 +523,17 @@ def main(argv):
         distinct |= {("c13p", i) for i in range(d13)}
         samples += s13[:1]
         budget *= 0.75
-        extra_rule = "; plus random interleavings of declare_channel / config_detuning_map / config_slm_mask / first use of a variable / inspection calls on devices with and without reusable channels (parametrized sequences included)"
+        extra_rule = "; plus random interleavings of declare_channel / config_detuning_map / config_slm_mask / first use of a variable / inspection calls on devices with and without reusable channels (parametrized sequences included), and of EOM enable / disable / pulse / EOM pulse / delay / is_in_eom_mode on two EOM channels of plain and parametrized sequences (each channel's acceptance follows its own mode)"
+    if prop == "C06":
+        # XY mode with an SLM mask (one or two Microwave channels): per-atom view vs an independent per-atom rendering
+        import c06xy
+        f6, e6, d6, s6 = c06xy.run(rng, budget * 0.2, lambda msg, kind, d: None)
+        failures += f6
+        evals += e6
+        distinct |= {("c06xy", i) for i in range(d6)}
+        samples += s6[:1]
+        budget *= 0.8
+        extra_rule = "; plus generated XY-mode sequences with an SLM mask on one or two Microwave channels (random protocols, pulses straddling the end of the mask), per-atom view compared with an independent per-atom rendering"
     t0 = time.time()
     props = checks.PROP_GROUP.get(prop, [prop])
     scripted = list(scripted_histories(rng))
